@@ -1,3 +1,4 @@
 import Tx3Proofs.C05
+import Tx3Proofs.C05Fee
 #print axioms Tx3.C20_history_independent
 #print axioms Tx3.C20_needs_reset
